@@ -17,7 +17,7 @@ Definition np_mod (x y : Z) : Z := if y =? 0 then 0 else x mod y.
 (* (function id, parameters) -> function on the list of operand values *)
 Definition ftable (fd : Z * list Z) (l : list Z) : Z :=
   let '(id, ps) := fd in
-  let x := arg l 0 in let y := arg l 1 in let z := arg l 2 in
+  let x := arg l 0 in let y := arg l 1 in let z := arg l 2 in let w := arg l 3 in
   match id with
   | 0 => x + y
   | 1 => x - y
@@ -50,6 +50,8 @@ Definition ftable (fd : Z * list Z) (l : list Z) : Z :=
   | 32 => Z.min (Z.max x y) z               (* np.clip(x, lo, hi) with array bounds *)
   | 33 => x + y + z
   | 34 => x + arg ps 0                      (* elemwise(lambda a: a + k) *)
+  | 35 => x * y + z * w                     (* elemwise(lambda a, b, c, d: a * b + c * d) *)
+  | 36 => x * y * z                         (* elemwise(lambda a, b, c: a * b * c) *)
   | _ => 0
   end.
 
@@ -213,3 +215,14 @@ Definition judge_params (c : shape * shape * list Z) : Z :=
                           | None, None => true
                           | Some x, Some y => Bool.eqb x y
                           | _, _ => false end) (bcast_params sh bsh) (map oparam ps) then 0 else 1.
+
+(* _Elemwise._match_coo( *args, broadcast_shape=bsh) on canonical COO operands: the matched arrays share
+   their coordinates; compared as rows (coordinate, one value per operand) up to order (np.argsort's tie
+   order and the unsorted intermediates make the order unspecified) *)
+Definition row_eqb (a b : idx * list Z) : bool := zl_eqb (fst a) (fst b) && zl_eqb (snd a) (snd b).
+Definition judge_match_coo (c : list (coo Z) * shape * list (idx * list Z)) : Z :=
+  let '(args, bsh, rows) := c in
+  match match_coo Z 0 argsort args bsh with
+  | Ok m => if list_eqb row_eqb (sort_rows bsh m) (sort_rows bsh rows) then 0 else 1
+  | Raise _ => 2
+  end.
